@@ -561,7 +561,15 @@ func c10Routing(c *Ctx, F *model.Fields) {
 		}
 	}
 	evPS := A.EventVar("pattern-style-rules-exist")
-	track := []int{styleKey, g1, g2a, g2b, evPS}
+	// the scan of the pattern-scoped style rules ran to its end (so "no pattern rule applies" is an established fact)
+	evScan := A.EventVar("pattern-style-rules-scanned")
+	var scanLoops []*model.AnyLoop
+	for _, l := range model.RangeLoopsAll(fn) {
+		if l.IsMap && model.LoadedPolicyField(l.Over) == F.Get("elsMatchingAndStyles") {
+			scanLoops = append(scanLoops, l)
+		}
+	}
+	track := []int{styleKey, g1, g2a, g2b, evPS, evScan}
 	track = append(track, msAtoms...)
 	track = append(track, nonEmptyV...)
 	q, err := A.NewQuery(track)
@@ -584,7 +592,16 @@ func c10Routing(c *Ctx, F *model.Fields) {
 		if len(msAtoms) == 0 || len(nonEmptyV) == 0 {
 			return nil
 		}
+		scanDone := false
+		for _, l := range scanLoops {
+			if b == l.Header && b.Succs[k] == l.Exit {
+				scanDone = true
+			}
+		}
 		return func(a uint32) []uint32 {
+			if scanDone {
+				a = q.With(a, evScan, true)
+			}
 			m := true
 			for _, x := range msAtoms {
 				if !q.Bit(a, x) {
@@ -605,8 +622,9 @@ func c10Routing(c *Ctx, F *model.Fields) {
 			return []uint32{a}
 		}
 	}
-	q.Run(fn.Blocks[0], q.InitWith(map[int]bool{evPS: false}))
+	q.Run(fn.Blocks[0], q.InitWith(map[int]bool{evPS: false, evScan: false}))
 	exist := pa.Or(pa.Not(pa.AtomF(g1)), pa.And(pa.AtomF(g2a), pa.Not(pa.AtomF(g2b))), pa.AtomF(evPS))
+	R.Role("C10.R1", "scans of the pattern-scoped style rules in sanitizeAttrs", len(scanLoops), 1)
 	// the data-attribute branch: appends reached only under isDataAttribute(key)
 	var dataF *pa.F
 	var qd *pa.Query
@@ -661,6 +679,10 @@ func c10Routing(c *Ctx, F *model.Fields) {
 					continue
 				}
 			}
+			// completeness of the routing decision: a style attribute handled by the generic rules means that no style rule
+			// applies — which is only known once the pattern-scoped rules were scanned to the end
+			okC, cexC := q.Holds(st, pa.Implies(pa.AtomF(styleKey), pa.Or(exist, pa.AtomF(evScan))))
+			R.Check(okC, "C10.R1", fmt.Sprintf("generic-append#%d:sources-consulted", n), "(*Policy).sanitizeAttrs filter loop: generic append of the range element", c.P.Pos(cl.Pos()), "a style attribute gets here only after the pattern-scoped style rules were scanned", "a style attribute can be handled by the generic attribute rules without the pattern-scoped style rules having been consulted: rules attached with OnElementsMatching are then ignored for this element (the style is dropped, or kept unfiltered): ["+cexC+"]")
 			ok1, cex := q.Holds(st, pa.Not(pa.And(pa.AtomF(styleKey), exist)))
 			R.Check(ok1, "C10.R1", fmt.Sprintf("generic-append#%d", n), "(*Policy).sanitizeAttrs filter loop: generic append of the range element", c.P.Pos(cl.Pos()), "never a style attribute while style rules exist for the element", "a style attribute can be kept by the generic attribute rules although style rules exist for the element (its declarations would not be filtered): ["+cex+"]")
 		}
